@@ -25,6 +25,7 @@ import traceback
 VERIF = os.path.dirname(os.path.dirname(os.path.abspath(__file__)))
 REPO = os.environ.get("VERIF_REPO", "/repo")
 OUT = os.environ.get("VERIF_OUT", VERIF)  # evidence/ and replays/ are written below this
+FAILFAST = os.environ.get("VERIF_FAILFAST") == "1"  # mutant runs only: first violation ends the run
 
 
 class Violation(Exception):
@@ -294,8 +295,10 @@ def _run_hypothesis(sub, tier, seed, shard, account, handle, swallowed, res, t0,
 
     n = sub.quick if tier == "quick" else sub.thorough
     shrink_budget = 150 if tier == "quick" else 600
+    if FAILFAST:
+        shrink_budget = 0
 
-    for _attempt in range(4):  # collect up to 4 distinct buckets per shard
+    for _attempt in range(1 if FAILFAST else 4):  # collect up to 4 distinct buckets per shard
         state = {"failing": {}, "last": None, "after_first": 0, "stop": False}
 
         def wrapper(case):
@@ -397,6 +400,21 @@ def run_property(prop, tier, replay=None, only=None):
     else:
         ctx = mp.get_context("spawn")
         with ctx.Pool(nproc, maxtasksperchild=1) as pool:
+            if FAILFAST:
+                # sensitivity runs (mutants): stop at the first violation or harness error, no evidence
+                reg = _run_regressions(prop, mod, subs, known)
+                for r in itertools.chain([reg], pool.imap_unordered(_worker, tasks, chunksize=1)):
+                    if r["failures"] or r["error"]:
+                        pool.terminate()
+                        if r["failures"]:
+                            f = r["failures"][0]
+                            print(f"VIOLATION property={prop} replay=- sub={r['sub']} signature={f['sig']} :: "
+                                  f"{str(f['msg'])[:200]} (failfast)")
+                            return 1
+                        print("HARNESS ERROR", r["error"][-1500:])
+                        return 2
+                print(f"{prop} {tier}: no violation (failfast)")
+                return 0
             results = pool.map(_worker, tasks, chunksize=1)
 
     results.insert(0, _run_regressions(prop, mod, subs, known))
